@@ -19,7 +19,43 @@ type handPair struct {
 	old, new map[string]string
 }
 
-var handPairs = []handPair{}
+var handPairs = []handPair{
+	{
+		name: "struct of an included file retyped, root unchanged", sig: "C18:missed-breaking:in-included-file:retype-field", wantFail: true, root: "root.frugal",
+		old: map[string]string{"inc.frugal": "struct Item {\n  1: required i32 id,\n}\n", "root.frugal": "include \"inc.frugal\"\nservice Store {\n  inc.Item get(1: i32 id),\n}\n"},
+		new: map[string]string{"inc.frugal": "struct Item {\n  1: required string id,\n}\n", "root.frugal": "include \"inc.frugal\"\nservice Store {\n  inc.Item get(1: i32 id),\n}\n"},
+	},
+	{
+		name: "innermost type of map<string,list<set<T>>> changed", sig: "C18:missed-breaking:retype-field:nested", wantFail: true, root: "a.thrift",
+		old: map[string]string{"a.thrift": "struct S {\n  1: i32 a,\n  2: map<string, list<set<i32>>> m,\n}\n"},
+		new: map[string]string{"a.thrift": "struct S {\n  1: i32 a,\n  2: map<string, list<set<i64>>> m,\n}\n"},
+	},
+	{
+		name: "typedef target changed, field spelled the same", sig: "C18:missed-breaking:retarget-typedef:via-typedef", wantFail: true, root: "a.thrift",
+		old: map[string]string{"a.thrift": "typedef i32 Id\nstruct S {\n  1: list<Id> ids,\n}\n"},
+		new: map[string]string{"a.thrift": "typedef string Id\nstruct S {\n  1: list<Id> ids,\n}\n"},
+	},
+	{
+		name: "typedef of an included file retargeted, used by the root", sig: "C18:missed-breaking:retarget-typedef:via-typedef:via-include", wantFail: true, root: "root.frugal",
+		old: map[string]string{"inc.frugal": "typedef i32 Id\n", "root.frugal": "include \"inc.frugal\"\nstruct S {\n  1: inc.Id id,\n}\n"},
+		new: map[string]string{"inc.frugal": "typedef string Id\n", "root.frugal": "include \"inc.frugal\"\nstruct S {\n  1: inc.Id id,\n}\n"},
+	},
+	{
+		name: "last default field removed", sig: "C18:missed-breaking:remove-field", wantFail: true, root: "a.thrift",
+		old: map[string]string{"a.thrift": "struct S {\n  1: i32 a,\n  2: optional i32 b,\n  3: string c,\n}\n"},
+		new: map[string]string{"a.thrift": "struct S {\n  1: i32 a,\n  2: optional i32 b,\n}\n"},
+	},
+	{
+		name: "typedef introduced with the same underlying type", sig: "C18:false-alarm:introduce-typedef", wantFail: false, root: "a.thrift",
+		old: map[string]string{"a.thrift": "struct S {\n  1: map<string, list<i32>> m,\n}\n"},
+		new: map[string]string{"a.thrift": "typedef list<i32> Ints\ntypedef map<string, Ints> Index\nstruct S {\n  1: Index m,\n}\n"},
+	},
+	{
+		name: "renames, added optional field, renamed prefix variable, namespace and constant changes", sig: "C18:false-alarm:documented-compatible-edits", wantFail: false, root: "a.frugal",
+		old: map[string]string{"a.frugal": "namespace go a\nconst i32 LIMIT = 3\nenum Color { RED = 1, GREEN = 2 }\nstruct S {\n  1: i32 a,\n}\nservice Svc {\n  i32 get(1: S s),\n}\nscope Events prefix x.{user}.y {\n  Sent: S\n}\n"},
+		new: map[string]string{"a.frugal": "namespace go a2\nconst i64 LIMIT = 4\nenum Color { CRIMSON = 1, GREEN = 2, BLUE = 3 }\nstruct S {\n  1: i32 renamed,\n  2: optional string added,\n}\nservice Svc {\n  i32 get(1: S renamedArg),\n  void added(),\n}\nscope Events prefix x.{account}.y {\n  Sent: S\n  Added: S\n}\n"},
+	},
+}
 
 func knownWitnesses(run *ev.Run, bin, scratch string) {
 	for i, hp := range handPairs {
